@@ -487,7 +487,7 @@ func (x *mapInst) Do(c Call) []any {
 			text = append(text, []byte(strconv.Quote(strconv.Itoa(c.Vs[i]))+":"+strconv.Itoa(c.Vs[i+1]))...)
 		}
 		text = append(text, '}')
-		return []any{m.(jsonable).FromJSON(text) == nil}
+		return []any{m.(jsonable).FromJSON(loadText(c, text)) == nil}
 	default:
 		die("map: unknown op %s", c.Op)
 	}
@@ -561,7 +561,7 @@ func (u *mapUniverse) Calls(x Inst) []Call {
 		// from run to run: inside the tours (which replay paths) trees load one member at most
 		pairs = pairs[:2]
 	}
-	cs = append(cs, Call{Op: "FromJSON", Vs: []int{}}, Call{Op: "FromJSON", Vs: pairs})
+	cs = append(cs, Call{Op: "FromJSON", Vs: []int{}}, Call{Op: "FromJSON", Vs: pairs}, Call{Op: "FromJSON", Vs: pairs, S: "bad"})
 	if len(pairs) > 2 {
 		cs = append(cs, Call{Op: "FromJSON", Vs: pairs[2:]})
 	}
